@@ -149,6 +149,9 @@ def run_case(case):
             pool._after_remove = after
             if case.get("fail_recv") is not None:
                 net.plan([{"call": None, "kind": "recv", "nth": k, "what": "reset"} for k in case["fail_recv"]])
+            if case.get("interrupt_recv") is not None:
+                # a KeyboardInterrupt (any non-Exception BaseException: gevent.Timeout, SystemExit) delivered inside that recv
+                net.plan([{"call": None, "kind": "recv", "nth": k, "what": "kbd"} for k in case["interrupt_recv"]])
         og, orl, od = pool.get, pool.release, pool.destroy
 
         def g():
@@ -247,6 +250,9 @@ def run_case(case):
                             problems.append(("internal-error", "%s raised %r" % (op, e)))
                     except ConnectionResetError:
                         pass
+                    except KeyboardInterrupt:
+                        if case.get("interrupt_recv") is None:
+                            raise
                     except MemcacheError as e:
                         # (a hash client whose only server has failed says so)
                         if not (harness == "h" and "All servers seem to be down" in str(e)):
@@ -298,6 +304,7 @@ def run_case(case):
                         pass
             if net is not None:
                 net.hook = None
+                net.sock_faults.clear()          # (a planned fault whose socket call never happened in this schedule is void)
             try:
                 probe()
             except Exception as e:  # noqa: BLE001
@@ -386,6 +393,10 @@ def bounded_cases(tier, seed):
         confs.append({"harness": "b", "threads": [["setrefused"], ["set"]], "max_size": ms, "two_in_quick": ms == 1})
         confs.append({"harness": "b", "threads": [["setmanyrefused"], ["get"]], "max_size": ms})
     confs.append({"harness": "b", "threads": [["setrefused"], ["setmanyrefused"]], "max_size": 2})
+    # a call aborted by an interruption inside recv while the other thread is inside the pool
+    for ms in (1, 2):
+        confs.append({"harness": "b", "threads": [["get"], ["get"]], "max_size": ms, "interrupt_recv": [0], "two_in_quick": True})
+        confs.append({"harness": "b", "threads": [["set", "get"], ["get"]], "max_size": ms, "interrupt_recv": [1], "idle": 5, "tick": 3})
     # pooled objects that are falsy (an object pool holds whatever its creator returns; a client_class may define __len__)
     for ms in (1, 2):
         confs.append({"harness": "a", "threads": [["gr", "gr"], ["gr"]], "max_size": ms, "idle": 0, "falsy": True})
